@@ -19,6 +19,8 @@ type PSEnv struct {
 	conds   map[string]bool
 	// sticky holds seeded facts (specialisation); never forgotten, shared by all clones
 	sticky map[string]bool
+	// stickyNil: seeded nil-ness of values, valid wherever the value is (re)computed
+	stickyNil map[ssa.Value]bool
 }
 
 func newEnv(p *Prog) *PSEnv {
@@ -28,6 +30,7 @@ func newEnv(p *Prog) *PSEnv {
 func (e *PSEnv) clone() *PSEnv {
 	n := newEnv(e.p)
 	n.sticky = e.sticky
+	n.stickyNil = e.stickyNil
 	for k, v := range e.alias {
 		n.alias[k] = v
 	}
@@ -74,7 +77,13 @@ func (e *PSEnv) Resolve(v ssa.Value) ssa.Value {
 
 // Nil reports what the path knows about v: (isNil, known).
 func (e *PSEnv) Nil(v ssa.Value) (bool, bool) {
+	if n, ok := e.stickyNil[v]; ok {
+		return n, true
+	}
 	r := e.Resolve(v)
+	if n, ok := e.stickyNil[r]; ok {
+		return n, true
+	}
 	switch x := r.(type) {
 	case *ssa.Const:
 		if x.IsNil() {
